@@ -2,29 +2,75 @@
   Proofs.C08 — lemmas and proofs behind Props/C08.lean.
 -/
 import Spec.StoreInv
+import Proofs.C08Batch
 
 namespace MongoModel.Proofs.C08
-open MongoModel MongoModel.Spec
+open MongoModel MongoModel.Spec MongoModel.Proofs.C08Lemmas
+
+/-- a single-document write is not a `clock` operation: `step` runs `stepColl` at the clock -/
+theorem step_single (cfg : Cfg) (s : St) (op : Val) (hs : singleWrite op = true) :
+    step cfg s op =
+      ({ s with c := (stepColl cfg s.now s.c op).1 }, (stepColl cfg s.now s.c op).2) := by
+  unfold step
+  split
+  · simp [singleWrite] at hs
+  · rfl
 
 theorem failed_single_write_noop (cfg : Cfg) (s : St) (op : Val) (hs : singleWrite op = true)
     (he : (step cfg s op).2.isErr = true) :
-    visible (step cfg s op).1 = visible s := by sorry
+    visible (step cfg s op).1 = visible s := by
+  rw [step_single cfg s op hs] at he ⊢
+  exact (single_fail_near cfg s.now s.c op hs he).visible
 
 theorem failed_single_write_indexes (cfg : Cfg) (s : St) (op : Val) (hs : singleWrite op = true)
     (he : (step cfg s op).2.isErr = true) :
     (step cfg s op).1.c.indexes.map (·.name) = s.c.indexes.map (·.name) ∧
-    (step cfg s op).1.c.ttlIndexes.map (·.name) = s.c.ttlIndexes.map (·.name) := by sorry
+    (step cfg s op).1.c.ttlIndexes.map (·.name) = s.c.ttlIndexes.map (·.name) := by
+  rw [step_single cfg s op hs] at he ⊢
+  have h := (single_fail_near cfg s.now s.c op hs he).indexes
+  exact ⟨by rw [h.1], by rw [h.2]⟩
 
 theorem validation_before_mutation (cfg : Cfg) (now : Int) (c : Coll) (f u up : Val) (e : Err)
     (h : validateUpdate u = .error e) :
     stepColl cfg now c (.arr [.str "update_one", f, u, up]) = (c, .err e) ∧
-    stepColl cfg now c (.arr [.str "update_many", f, u, up]) = (c, .err e) := by sorry
+    stepColl cfg now c (.arr [.str "update_many", f, u, up]) = (c, .err e) := by
+  have h1 : stepColl cfg now c (.arr [.str "update_one", f, u, up]) =
+      (match validateUpdate u with
+       | .error e => (c, .err e)
+       | .ok () =>
+         let (c', r) := applyUpdateColl cfg now c f u (boolOf up) false
+         (c', match r with | .ok x => .val (updateOut x) | .error e => .err e)) := rfl
+  have h2 : stepColl cfg now c (.arr [.str "update_many", f, u, up]) =
+      (match validateUpdate u with
+       | .error e => (c, .err e)
+       | .ok () =>
+         let (c', r) := applyUpdateColl cfg now c f u (boolOf up) true
+         (c', match r with | .ok x => .val (updateOut x) | .error e => .err e)) := rfl
+  rw [h1, h2, h]
+  exact ⟨rfl, rfl⟩
+
+theorem step_insert_many (cfg : Cfg) (now : Int) (c : Coll) (ds : List Val) (ordered : Val) :
+    stepColl cfg now c (.arr [.str "insert_many", .arr ds, ordered]) =
+      if ds.isEmpty then (c, .err .typeErr)
+      else if !ds.all Val.isDoc then (c, .err .typeErr)
+      else insertManyLoop now (boolOf ordered) ds 0 c [] [] 0 := rfl
+
+theorem step_insert_many_ok (cfg : Cfg) (now : Int) (c : Coll) (ds : List Val) (b : Bool)
+    (hne : ds ≠ []) (hd : ds.all Val.isDoc = true) :
+    stepColl cfg now c (.arr [.str "insert_many", .arr ds, .bool b]) =
+      insertManyLoop now b ds 0 c [] [] 0 := by
+  rw [step_insert_many]
+  have : ds.isEmpty = false := by cases ds <;> simp_all
+  simp only [this, hd, Bool.false_eq_true, if_false, Bool.not_true]
+  cases b <;> rfl
 
 theorem unordered_all_successes (cfg : Cfg) (now : Int) (c : Coll) (ds : List Val)
     (hne : ds ≠ []) (hd : ds.all Val.isDoc = true)
     (hw : ∀ e, (stepColl cfg now c (.arr [.str "insert_many", .arr ds, .bool false])).2 ≠ .err e) :
     (stepColl cfg now c (.arr [.str "insert_many", .arr ds, .bool false])).1
-      = seqInsert cfg now ds c := by sorry
+      = seqInsert cfg now ds c := by
+  rw [step_insert_many_ok cfg now c ds false hne hd] at hw ⊢
+  exact loop_unordered cfg now ds hd 0 c [] [] 0 hw
 
 theorem ordered_prefix (cfg : Cfg) (now : Int) (c : Coll) (ds : List Val)
     (hne : ds ≠ []) (hd : ds.all Val.isDoc = true) :
@@ -32,11 +78,20 @@ theorem ordered_prefix (cfg : Cfg) (now : Int) (c : Coll) (ds : List Val)
       (stepColl cfg now c (.arr [.str "insert_many", .arr ds, .bool true])).1
         = seqInsert cfg now (ds.take k) c ∧
       ((stepColl cfg now c (.arr [.str "insert_many", .arr ds, .bool true])).2.isErr = false →
-        k = ds.length) := by sorry
+        k = ds.length) := by
+  rw [step_insert_many_ok cfg now c ds true hne hd]
+  obtain ⟨k, hk, hst, hfin⟩ := loop_ordered cfg now ds hd 0 c [] [] 0
+  exact ⟨k, hk, hst, fun h => (hfin h).2⟩
 
 theorem ordered_error_details (cfg : Cfg) (now : Int) (c : Coll) (ds : List Val) (details : Val)
     (h : (stepColl cfg now c (.arr [.str "insert_many", .arr ds, .bool true])).2 = .bulkErr details) :
     ∃ k code, details = .doc [("writeErrors", .arr [.doc [("index", .int k), ("code", code)]]),
-                              ("nInserted", .int k)] := by sorry
+                              ("nInserted", .int k)] := by
+  rw [step_insert_many] at h
+  split at h
+  · cases h
+  · split at h
+    · cases h
+    · exact loop_details now ds 0 c [] 0 details rfl h
 
 end MongoModel.Proofs.C08
